@@ -54,21 +54,21 @@ Lemma commit_reaches_iff s :
   (forall o, (o < length (heap (cn s Par)))%nat ->
      let i := get_inst s Par o in
      reachable_obj s Par o = true -> i_obsolete i = false -> no_vals i = false -> changed s (i_id i) = true ->
-     In (i_id i) (all_ids cfg s Txn ++ deleted s) /\ try_get cfg s Par (i_id i) = Some o /\ i_expired i = false).
+     In (i_id i) (all_ids cfg s Txn ++ deleted s) /\ try_get cfg s Par (i_id i) = Some o).
 Proof.
   unfold commit_reaches. rewrite forallb_seq_nat. split; intros H1.
   - intros o Ho Hr Hob Hnv Hch. specialize (H1 o Ho). set (i := get_inst s Par o) in *.
     rewrite Hr, Hob, Hnv, Hch in H1. cbn in H1.
-    apply andb_true_iff in H1. destruct H1 as [H1 H3]. apply andb_true_iff in H1. destruct H1 as [H1 H4].
-    apply mem_z_In in H1. split; [exact H1|]. split; [|apply negb_true_iff; exact H3].
+    apply andb_true_iff in H1. destruct H1 as [H1 H4].
+    apply mem_z_In in H1. split; [exact H1|].
     destruct (try_get cfg s Par (i_id i)) as [o'|]; [|discriminate]. apply Nat.eqb_eq in H4. congruence.
   - intros o Ho. specialize (H1 o Ho).
     destruct (reachable_obj s Par o) eqn:Hr; cbn; auto.
     destruct (i_obsolete (get_inst s Par o)) eqn:Hob; cbn; auto.
     destruct (no_vals (get_inst s Par o)) eqn:Hnv; cbn; auto.
     destruct (changed s (i_id (get_inst s Par o))) eqn:Hch; cbn; auto.
-    destruct (H1 eq_refl eq_refl eq_refl eq_refl) as (A & B & C).
-    rewrite B, C, Nat.eqb_refl. cbn. rewrite !andb_true_r. apply mem_z_In. exact A.
+    destruct (H1 eq_refl eq_refl eq_refl eq_refl) as (A & B).
+    rewrite B, Nat.eqb_refl. cbn. rewrite !andb_true_r. apply mem_z_In. exact A.
 Qed.
 
 (* state equalities used below: the low-level commit touches only the tables *)
@@ -117,14 +117,14 @@ Proof.
     specialize (Hpf o Ho' Hr' Hob').
     destruct (no_vals (get_inst s Par o)) eqn:Hnv.
     { (* nothing cached before: nothing cached after *)
-      apply shows_no_vals. destruct (Rv o) as [E|(_ & E & _)]; [rewrite E, Hgi; exact Hnv|exact E]. }
+      apply shows_no_vals. destruct (Rv o) as [E|(E & _)]; [rewrite E, Hgi; exact Hnv|exact E]. }
     destruct (changed s (i_id (get_inst s Par o))) eqn:Hch.
     - (* the transaction changed this row: commit reaches the instance *)
-      destruct (Hg1 o Ho' Hr' Hob' Hnv Hch) as (A & B & C).
-      apply shows_no_vals. apply V2; [|rewrite Hgi; exact C].
+      destruct (Hg1 o Ho' Hr' Hob' Hnv Hch) as (A & B).
+      apply shows_no_vals. apply V2.
       exists (i_id (get_inst s Par o)). split; [exact A|]. rewrite Htg. exact B.
     - (* untouched row: whether expired or not, what is cached is still right *)
-      destruct (Rv o) as [E|(_ & E & _)]; [|apply shows_no_vals; exact E].
+      destruct (Rv o) as [E|(E & _)]; [|apply shows_no_vals; exact E].
       rewrite E, Hgi. rewrite (shows_same_row (committed s) (view s Txn)); [exact Hpf|].
       apply changed_false_lookup. exact Hch. }
   destruct close.
@@ -164,20 +164,18 @@ Lemma rollback_reaches_iff s :
   (forall o, (o < length (heap (cn s Txn)))%nat ->
      let i := get_inst s Txn o in
      reachable_obj s Txn o = true -> i_obsolete i = false -> no_vals i = false ->
-     try_get cfg s Txn (i_id i) = Some o /\ i_expired i = false).
+     try_get cfg s Txn (i_id i) = Some o).
 Proof.
   unfold rollback_reaches. rewrite forallb_seq_nat. split; intros H1.
   - intros o Ho Hr Hob Hnv. specialize (H1 o Ho). set (i := get_inst s Txn o) in *.
     rewrite Hr, Hob, Hnv in H1. cbn in H1.
-    apply andb_true_iff in H1. destruct H1 as [H1 H4].
-    split; [|apply negb_true_iff; exact H4].
     destruct (try_get cfg s Txn (i_id i)) as [o'|]; [|discriminate]. apply Nat.eqb_eq in H1. congruence.
   - intros o Ho. specialize (H1 o Ho).
     destruct (reachable_obj s Txn o) eqn:Hr; cbn; auto.
     destruct (i_obsolete (get_inst s Txn o)) eqn:Hob; cbn; auto.
     destruct (no_vals (get_inst s Txn o)) eqn:Hnv; cbn; auto.
-    destruct (H1 eq_refl eq_refl eq_refl) as (A & B).
-    rewrite A, B, Nat.eqb_refl. reflexivity.
+    pose proof (H1 eq_refl eq_refl eq_refl) as A.
+    rewrite A, Nat.eqb_refl. reflexivity.
 Qed.
 
 (* every tryGet hit is among allIDs *)
@@ -227,10 +225,10 @@ Proof.
     - intros e He. apply Rstr in He. exact He.
     - exact Hr. }
   destruct (no_vals (get_inst s Txn o)) eqn:Hnv.
-  { destruct (Rv o) as [E|(_ & E & _)]; [rewrite E, Hgi; exact Hnv|exact E]. }
+  { destruct (Rv o) as [E|(E & _)]; [rewrite E, Hgi; exact Hnv|exact E]. }
   destruct (Nat.lt_ge_cases o (length (heap (cn s Txn)))) as [Ho|Ho].
-  - destruct (Hg1 o Ho Hr' Hob' Hnv) as (A & B).
-    apply V2; [|rewrite Hgi; exact B].
+  - pose proof (Hg1 o Ho Hr' Hob' Hnv) as A.
+    apply V2.
     exists (i_id (get_inst s Txn o)). split; [|rewrite Htg; exact A].
     eapply try_get_in_all_ids; eauto.
   - (* an index outside the heap reads as the blank instance *)
